@@ -10,18 +10,30 @@ from props import _delta as D
 
 ID = "C07"
 THEOREMS = [
+    "C07_delta_size_limit_tied",
     "C07_each_once", "C07_base_before_delta", "C07_resolves", "C07_new_deltas_ok", "C07_acyclic_keeps_deltas", "C07_fuel_sufficient",
     "C07_entry_head_roundtrip", "C07_ofs_roundtrip",
+    "C07_depth_bound", "C07_depth_bound_chains_partial", "C07_depth_bound_chains_refuted", "C07_selector_resolves", "C07_window_0_1",
 ]
-MODEL_FILES = ["PackEnc.v"]
+MODEL_FILES = ["PackEnc.v", "DeltaSel.v"]
 MODELLED = (
     "plumbing/format/packfile/encoder.go: Encoder.encode, entry, writeBaseIfDelta (the recursion over the ObjectToPack graph "
     "with the Offset encoding 0/1/>1 of object_pack.go: IsWritten, WantWrite, MarkWantWrite, BackToOriginal after "
     "restoreOriginal), entryHead, writeOfsDeltaHeader + utils/binary.WriteVariableWidthInt, head (count); "
     "delta payloads through C06 (diff/patch round trip). "
-    "Not modelled: DeltaSelector's choice of bases (sort, window walk, deltaSizeLimit: its OUTPUT graph is taken from the "
-    "implementation on every case and the theorems hold for every graph, cyclic or not), zlib, the storer, "
-    "the hasher (trailer checked by git and by the harness)."
+    "delta_selector.go (Model/DeltaSel.v): ObjectsToPack / objectsToPack (window 0: whole objects in request order; otherwise stored "
+    "deltas handed out by the DeltaObjectStorer), fixAndBreakChains / fixAndBreakChainsOne / undeltify (base looked up by id, last "
+    "object with that id; Depth = base Depth + 1), sort byTypeAndSize over ObjectToPack.Type()/Size() (Size() of a reused delta is "
+    "DeltaObject.ActualSize() as the storer reports it), the per-type groups, walk (skip reused deltas and non blob/tree types, "
+    "candidates at distance < window, same type), tryToDeltify (size ratio >> 4, deltaSizeLimit, msz <= 8, size difference, "
+    "delta.Size() < msz, SetDelta) and deltaSizeLimit; maxDepth is taken from the source by gotrans. The selector's two "
+    "nondeterministic inputs — the permutation sort.Sort leaves and the sizes of getDelta's outputs — are taken from the "
+    "implementation on every case and the model must then reproduce the WHOLE selection (bases and Depth of every object) and the "
+    "encoder's run on it; the theorems hold for every such input. deltaSizeLimit could not be translated by gotrans (method on a "
+    "struct receiver: outside gotrans' subset, and gotrans is shared): it is hand-modelled and compared with the real method "
+    "(verif export hook) on a grid. Not modelled: zlib, the storer, getDelta's bytes (C06), Original/CleanOriginal/"
+    "SaveOriginalMetadata (memory management), the goroutine per group, requests naming an id twice (known finding), the hasher "
+    "(trailer checked by git and by the harness)."
 )
 TRUSTED = [
     "C-impl: packfile.NewEncoder(...WithObjectSelector).Encode over (a) synthetic ObjectToPack graphs incl. cycles and (b) the graph "
@@ -31,12 +43,17 @@ TRUSTED = [
 ASSUMPTIONS = [
     "zlib round trip (inflate (deflate x) = x) and SHA-1/SHA-256 as implemented by Go and git",
     "the storer returns the object for every requested hash (restoreOriginal succeeds)",
-    "stored (reused) deltas apply to their base (C07_resolves takes it as the hypothesis deltas_ok; new deltas satisfy it by C06_diff_roundtrip)",
+    "stored (reused) deltas apply to their base (C07_resolves takes it as the hypothesis deltas_ok; new deltas satisfy it by C06_diff_roundtrip; "
+    "C07_selector_resolves: the storer's stored delta for u applies to the object carrying the id it names as base)",
+    "object and delta sizes are lengths (non-negative); sizes stay within int64 in deltaSizeLimit's products (objects < 2^56 bytes)",
 ]
 RULE = ("graph: synthetic ObjectToPack lists with arbitrary base pointers (chains, stars, 2- and 3-cycles, self loops, cleaned originals); "
         "select: object sets {similar blobs, duplicates, empties, trees/commits, chains > 50} x window {0,1,10,50} x {ofs,ref} x {sha1,sha256}; "
         "select-fs: repositories whose pack stores chosen objects as deltas (reused by the selector, incl. delta-larger-than-base "
-        "which makes the selector build a cycle); non-trivial = at least one delta or cycle; distinct by content")
+        "which makes the selector build a cycle; reuse-deep: a stored chain of 30 deltas on an object the walk deltifies at Depth 21, "
+        "the situation of C07_depth_bound_chains_refuted: git verify-pack reports a chain of 51); for every select case without a "
+        "repeated id the selection model is replayed with the implementation's sort order and delta sizes and must give the same bases "
+        "and depths; limit: deltaSizeLimit on a grid; non-trivial = at least one delta or cycle; distinct by content")
 
 
 def run_bin(cases):
@@ -257,13 +274,14 @@ def reuse_pack(rng, fmt):
     order = sorted(range(k), key=lambda i: len(blobs[i]), reverse=(style != "reverse"))
     if style == "mixed":
         rng.shuffle(order)
-    entries, full = [], set()
+    entries, full, used_as_base = [], set(), set()
     for pos, i in enumerate(order):
         if pos == 0 or (style != "chain" and rng.random() < 0.3):
             entries.append(("full", "blob", blobs[i]))
             full.add(i)
         else:
             b = order[pos - 1] if style == "chain" else rng.choice([j for j in order[:pos]])
+            used_as_base.add(b)
             src, tgt = blobs[b], blobs[i]
             p = 0
             while p < min(len(src), len(tgt)) and src[p] == tgt[p]:
@@ -280,14 +298,49 @@ def reuse_pack(rng, fmt):
                 rest = rest[127:]
             delta = D.leb(len(src)) + D.leb(len(tgt)) + ops
             entries.append(("ref", G.obj_oid("blob", src, fmt), delta))
-    return [("blob", b) for b in blobs], G.make_pack_entries(entries, fmt), style
+    return [("blob", b) for b in blobs], G.make_pack_entries(entries, fmt), style, sorted(used_as_base)
+
+
+def prefix_delta(src, tgt):
+    """a delta that copies the common prefix of src and inserts the rest of tgt"""
+    p = 0
+    while p < min(len(src), len(tgt)) and src[p] == tgt[p]:
+        p += 1
+    ops, q = b"", 0
+    while q < p:
+        n = min(p - q, D.MAXCOPY)
+        ops += D.copy_op(q, n)
+        q += n
+    rest = tgt[p:]
+    while rest:
+        ops += D.insert_op(rest[:127])
+        rest = rest[127:]
+    return D.leb(len(src)) + D.leb(len(tgt)) + ops
+
+
+def deep_reuse(rng, fmt):
+    """the situation of C07_depth_bound_chains_refuted on real objects: x0 > x1 > ... > x20 (each a prefix of the previous
+    one), r a prefix of x20, and c1..c30 STORED as a chain of deltas on r.  With window 2 the selector makes x_k a delta of
+    x_(k-1), r a delta of x20 (Depth 21) and reuses the stored chain (recorded Depth 1..30): c30 ends 51 deltas deep"""
+    X = rbytes(rng, 2000)
+    xs = [X[:2000 - k] for k in range(21)]
+    r = X[:1975]
+    cs, prev = [], r
+    for i in range(1, 31):
+        c = r[:1200 - 10 * i] + b"#c%02d#" % i + rbytes(rng, 20)
+        cs.append((prev, c))
+        prev = c
+    entries = [("full", "blob", x) for x in xs] + [("full", "blob", r)]
+    entries += [("ref", G.obj_oid("blob", src, fmt), prefix_delta(src, c)) for src, c in cs]
+    objs = [("blob", x) for x in xs] + [("blob", r)] + [("blob", c) for _, c in cs]
+    return objs, G.make_pack_entries(entries, fmt)
 
 
 class Select(Suite):
     """end to end: DeltaSelector.ObjectsToPack + Encoder.Encode; the model replays the encoder on the selected graph"""
     name = "select"
     go_cmd = "c07"
-    coq_imports = "From GoGit Require Import Model.PackEnc."
+    coq_imports = "From GoGit Require Import Model.PackEnc Model.DeltaSel."
     quick_n = 60
     thorough_n = 200
     coq_chunk = 40
@@ -302,15 +355,32 @@ class Select(Suite):
             b = pick_weighted(rng, [(4, "similar"), (3, "mixed"), (3, "repo"), (1, "tiny"), (3, "reuse"), (1, "dup")])
             if k == 0:
                 b = "chain"
+            if k == 1:
+                b = "reuse-deep"
             c = {"kind": "select", "format": fmt, "ref": rng.random() < 0.5,
                  "window": rng.choice([0, 1, 10, 10, 50])}
-            if b == "reuse":
-                objs, pack, style = reuse_pack(rng, fmt)
+            if b == "reuse-deep":
+                objs, pack = deep_reuse(rng, fmt)
+                c["packhex"] = pack.hex()
+                c["ids"] = [G.obj_oid(t, x, fmt).hex() for t, x in objs]
+                c["objs"] = objs_json(objs)
+                c["window"] = 2
+                order = list(range(len(objs)))
+            elif b == "reuse":
+                objs, pack, style, bases = reuse_pack(rng, fmt)
                 c["packhex"] = pack.hex()
                 c["ids"] = [G.obj_oid(t, x, fmt).hex() for t, x in objs]
                 c["objs"] = objs_json(objs)       # for the oracle only (the harness reads the repository)
-                c["window"] = rng.choice([1, 10, 10, 50])
+                c["window"] = rng.choice([0, 1, 1, 10, 10, 50])
                 order = list(range(len(objs)))
+                if len(order) > 2 and bases and rng.random() < 0.45:
+                    # request only a part of the pack: a stored delta whose base is NOT among the objects to pack
+                    # (fixAndBreakChainsOne -> undeltify), plus possibly another missing object
+                    order.remove(rng.choice(bases))
+                    if len(order) > 2 and rng.random() < 0.4:
+                        order.pop(rng.randrange(len(order)))
+                    c["window"] = rng.choice([1, 1, 10, 10, 50])
+                    style += "-partial"
                 b = "reuse-" + style
             elif b == "dup":
                 objs = object_set(rng, "similar", fmt)
@@ -325,6 +395,7 @@ class Select(Suite):
             rng.shuffle(order)
             c["order"] = order
             c["bucket"] = b
+            c["sel"] = len(set(order)) == len(order)      # the selection model does not cover an id requested twice
             cases.append(c)
         res = run_bin([dict(c, id=i) for i, c in enumerate(cases)])
         for i, c in enumerate(cases):
@@ -344,6 +415,16 @@ class Select(Suite):
         g = self._graph(c)
         if g is None:
             return 'OErr "nograph"'
+        if c.get("sel"):
+            # the chooser's two inputs (sort order, delta sizes) are taken from the implementation; the model must then
+            # reproduce the whole selection (bases and depths) and the encoder's run on it
+            sel = ((self._impl.get(self.key(c)) or {}).get("extra") or {}).get("sel")
+            if sel is None:
+                return 'OErr "nosel"'
+            objs = "; ".join("(%d%%N, %d, %d, %s)" % (k, t, sz, "None" if b < 0 else "Some (%d%%N, %d)" % (b, a)) for k, t, sz, b, a in sel["objs"])
+            order = "; ".join("%d" % u for u in sel["order"] or [])
+            dsz = "; ".join("(%d, %d, %d%%Z)" % (b, t, d) for b, t, d in sel["dsz"] or [])
+            return "c07_select %d [%s]%%Z [%s]%%nat [%s]%%nat" % (c["window"], objs, order, dsz)
         return "c07_run " + coq_nodes([(x[0], x[1]) for x in g])
 
     def nontrivial(self, c):
@@ -368,7 +449,7 @@ class Select(Suite):
             fmt = c.get("format", "sha1")
             objs = [(o["type"], D.expand(o["data"])) for o in c["objs"]]
             req = [G.obj_oid(*objs[k], fmt) for k in c["order"]]
-            want = sorted(set(req))          # exactly the requested objects, once each
+            want = sorted(set(req))          # exactly the requested objects, once each (also when only a part of a pack is requested)
             bad = idx_check(ctx, r, want, fmt, "s%d" % c["id"])
             if bad:
                 cls, why = bad
@@ -377,7 +458,7 @@ class Select(Suite):
                 fails[c["id"]] = "[%s] %s" % (cls, why)
             else:
                 g = (r.get("extra") or {}).get("graph") or []
-                self._depths.append((r["extra"].get("_maxdepth", 0), any(x[1] == -2 for x in g), "packhex" in c, has_cycle(g)))
+                self._depths.append((r["extra"].get("_maxdepth", 0), any(x[1] == -2 for x in g), "packhex" in c, has_cycle(g), c.get("bucket")))
         return fails
 
     def finding_class(self, case, reason, reply):
@@ -390,7 +471,34 @@ class Select(Suite):
         return {"max_chain_depth_git_verify_pack": max([x[0] for x in d] or [0]),
                 "max_chain_depth_without_reuse": max(new or [0]),
                 "packs_accepted_by_git": len(d),
+                "chain_depth_of_the_reuse_deep_case": max([x[0] for x in d if x[4] == "reuse-deep"] or [0]),
+                "selections_replayed_by_the_model": sum(1 for c in cases if c.get("sel")),
+                "stored_deltas_whose_ActualSize_is_not_the_object_size": sum(
+                    1 for c in cases for o in ((((impl.get(c["id"]) or {}).get("extra") or {}).get("sel") or {}).get("objs") or [])
+                    if o[3] >= 0 and o[4] != o[2]),
                 "selected_graphs_with_a_cycle": sum(1 for x in d if x[3])}
 
 
-SUITES = [Graph(), Select()]
+class Limit(Suite):
+    """leaf: DeltaSelector.deltaSizeLimit (not translatable by gotrans: method on a struct receiver) vs Model/DeltaSel.delta_size_limit"""
+    name = "limit"
+    go_cmd = "c07"
+    coq_imports = "From GoGit Require Import Model.DeltaSel."
+    quick_n = 6
+    thorough_n = 40
+
+    def gen(self, rng, n, tier):
+        cases = []
+        sizes = [0, 1, 2, 15, 16, 17, 18, 19, 33, 100, 101, 999, 1000, 4096, 65535, 2**20 + 1, 2**31, 2**40 + 7]
+        depths = [0, 1, 2, 9, 10, 25, 48, 49, 50, 51, 60, 100]
+        for _ in range(n):
+            args = [[rng.choice(sizes + [rng.randrange(0, 5000)]), rng.choice(depths + [rng.randrange(0, 52)]),
+                     rng.choice(depths + [rng.randrange(0, 52)]), rng.randrange(2)] for _ in range(60)]
+            cases.append({"kind": "limit", "args": args, "bucket": "limit"})
+        return cases
+
+    def model_expr(self, c):
+        return "c07_limits [%s]%%Z" % "; ".join("(%d, %d, %d, %s)" % (a, b, d, "true" if x else "false") for a, b, d, x in c["args"])
+
+
+SUITES = [Graph(), Select(), Limit()]
